@@ -310,13 +310,15 @@ int main(int argc, char ** argv)
         if(!fe_pass) return;
         // floating-point environment pass: the same workload, thinned, with every library call made under a directed
         // rounding mode; the property's checks (except those marked fp_env) must hold unchanged
-        double scale0 = c.scale;
+        double scale0 = c.scale; bool thorough0 = c.thorough;
         for(int mode : { FE_UPWARD, FE_DOWNWARD, FE_TOWARDZERO })
           {
           uint64_t e0 = c.st.evaluations;
-          c.fe_mode = mode; c.scale = scale0 * 0.125;
+          // the thorough tier's exhaustive 32-bit sweeps are not repeated per rounding mode: the passes run the quick-tier
+          // workload (thinned to 1/8 in quick, to 1/2 in thorough)
+          c.fe_mode = mode; c.thorough = false; c.scale = scale0 * (thorough0 ? 0.5 : 0.125);
           prop->run(c);
-          c.fe_mode = 0; c.scale = scale0;
+          c.fe_mode = 0; c.scale = scale0; c.thorough = thorough0;
           c.st.strata[std::string("library-calls-under-") + fe_name(mode)] += c.st.evaluations - e0;
           }
         });
